@@ -22,6 +22,9 @@ type ledgerCase struct {
 	BaseFee string     `json:"base_fee,omitempty"` // decimal; "" = 1 gwei
 	MinGas  string     `json:"min_gas_price,omitempty"`
 	Blocks  [][]TxSpec `json:"blocks"`
+	// Warm puts one block with a plain transfer (wallet 3 -> sink) before the observed blocks, so that the history starts from the
+	// state of a chain that has already processed an EVM balance change (the evm module account exists), not from a virgin genesis.
+	Warm bool `json:"warm,omitempty"`
 }
 
 // txObs is what one tx did, as reported by consensus.
@@ -59,7 +62,7 @@ type blockObs struct {
 var ledgerDenoms = []string{world.Denom, "utwo", "uthree"}
 
 func ledgerWorld(c ledgerCase) *world.World {
-	cfg := world.Config{MaxGas: c.MaxGas, NumWallets: 4, Contracts: StdContracts(), MinGasPrice: c.MinGas, DeployErc20: true}
+	cfg := world.Config{MaxGas: c.MaxGas, NumWallets: 4, Contracts: LedgerContracts(), MinGasPrice: c.MinGas, DeployErc20: true}
 	if c.BaseFee != "" {
 		b, ok := new(big.Int).SetString(c.BaseFee, 10)
 		if !ok {
@@ -107,6 +110,15 @@ func ledgerRun(c ledgerCase) (w *world.World, blocks []*blockObs) {
 	w = ledgerWorld(c)
 	w.Block(nil)
 	nonce := map[int]uint64{}
+	if c.Warm {
+		const warmWallet = 3
+		b := w.App.FeeMarketKeeper.GetBaseFee(w.Ctx()).BigInt()
+		br := w.Block([][]byte{BuildTx(w, TxSpec{Kind: KTransfer, Sender: warmWallet, Fee: FLegacyB}, b)})
+		if br.Panic != "" || br.Err != nil || len(br.Res.TxResults) != 1 || br.Res.TxResults[0].Code != 0 {
+			panic(fmt.Sprintf("warm-up block failed: %+v", br))
+		}
+		nonce[warmWallet] = w.Nonce(w.Ctx(), w.Wallets[warmWallet].Eth())
+	}
 	for _, blk := range c.Blocks {
 		ctx := w.Ctx()
 		bo := &blockObs{Height: w.Height + 1}
@@ -121,7 +133,7 @@ func ledgerRun(c ledgerCase) (w *world.World, blocks []*blockObs) {
 			bo.NoncePre[a.Eth().Hex()] = w.Nonce(ctx, a.Eth())
 		}
 		bo.ContractsAlivePre = map[string]bool{}
-		for _, ct := range StdContracts() {
+		for _, ct := range LedgerContracts() {
 			bo.ContractsAlivePre[ct.Addr.Hex()] = w.App.AccountKeeper.HasAccount(ctx, ct.Addr.Bytes()) && len(w.App.EvmKeeper.GetCode(ctx, w.App.EvmKeeper.GetCodeHash(ctx, ct.Addr.Bytes()))) > 0
 		}
 		var txs [][]byte
